@@ -213,7 +213,8 @@ Section Spec.
 
   (* the reachable part of the graph is finite: a list that contains every reachable package *)
   Variable universe : list string.
-  Hypothesis universe_ok : forall top p, reach top p -> In p universe.
+  (* (a per-top premise: `reach top top` holds for every top, so no finite list covers ALL tops) *)
+  Definition universe_ok (top : string) : Prop := forall p, reach top p -> In p universe.
 
   (* with a budget of at least 1 + the number of import edges in the universe + |universe|, discovery
      never runs out (the Go worklist loop terminates) and finds exactly the reachable packages *)
@@ -377,12 +378,12 @@ Section Spec.
       destruct (negb (mem x v)); rewrite ?sumw_cons; lia.
   Qed.
 
-  Lemma discover_fuel : forall top f todo d,
+  Lemma discover_fuel : forall top, universe_ok top -> forall f todo d,
     (forall x, In x todo -> reach top x) ->
     List.length todo + sumw (unvis (vis d) universe) < f ->
     discover imports f todo d <> None.
   Proof.
-    intros top; induction f as [|f IH]; intros todo d Ht Hf; [lia|].
+    intros top HU; induction f as [|f IH]; intros todo d Ht Hf; [lia|].
     simpl. destruct todo as [|pkg rest]; [discriminate|].
     simpl in Hf. fold (vis d).
     destruct (mem pkg (vis d)) eqn:Hm.
@@ -398,20 +399,20 @@ Section Spec.
           -- apply Ht. right; auto.
         * unfold vis; simpl. fold (vis d). rewrite app_length, rev_length.
           pose proof (sumw_unvis_cons_lt pkg imps (vis d) universe Hi Hm
-                        (universe_ok top pkg Hrp)). lia.
+                        (HU pkg Hrp)). lia.
       + apply IH.
         * intros x Hx. apply Ht. right; auto.
         * unfold vis; simpl. fold (vis d).
           pose proof (sumw_unvis_cons_le pkg (vis d) universe). lia.
   Qed.
 
-  Lemma discover_total : forall top b, budget <= b ->
+  Lemma discover_total : forall top b, universe_ok top -> budget <= b ->
     exists d, discover imports b [top] (mkDisc [] []) = Some d /\
               NoDup (vis d) /\
               (forall p, In p (vis d) <-> reach top p) /\
               (forall p, In p (vis d) -> aget p (deps d) = imports p).
   Proof.
-    intros top b Hb.
+    intros top b HU Hb.
     assert (HI : DInv top [top] (mkDisc [] [])).
     { unfold DInv, vis; simpl. repeat split.
       - intros x [Hx|[]]. subst. constructor.
@@ -428,10 +429,10 @@ Section Spec.
         * destruct Htop as [H|[]]; auto.
         * destruct (Hcl p q IHr He) as [H|[]]; auto.
       + intros p Hp. rewrite Hdeps. apply mem_In in Hp. rewrite Hp. reflexivity.
-    - exfalso. revert Hd. apply discover_fuel with (top := top).
+    - exfalso. revert Hd. apply discover_fuel with (top := top); [exact HU| |].
       + intros x [Hx|[]]. subst. constructor.
       + simpl. pose proof (sumw_unvis_le [] universe) as Hle.
-        assert (Hu : In top universe) by (apply (universe_ok top); constructor).
+        assert (Hu : In top universe) by (apply HU; constructor).
         assert (Hlen : 1 <= List.length universe)
           by (destruct universe; [destruct Hu | simpl; lia]).
         unfold budget in Hb. fold (sumw universe) in Hb.
@@ -608,12 +609,12 @@ Section Spec.
   (* the load function                                                 *)
   (* ---------------------------------------------------------------- *)
 
-  Lemma load_cases : forall top b, budget <= b ->
+  Lemma load_cases : forall top b, universe_ok top -> budget <= b ->
     (exists l, load imports b top = LoadOk l /\ valid_order top l) \/
     (load imports b top = LoadCycle /\ cyclic top).
   Proof.
-    intros top b Hb.
-    destruct (discover_total top b Hb) as (d & Hd & Hnd & Hiff & Hdeps).
+    intros top b HU Hb.
+    destruct (discover_total top b HU Hb) as (d & Hd & Hnd & Hiff & Hdeps).
     unfold load. rewrite Hd. fold (vis d).
     set (keys := sort_keys (vis d)).
     assert (HI : OInv top keys (deps d) []).
@@ -641,27 +642,27 @@ Section Spec.
 
   (* TO PROVE *)
 
-  Theorem c15_no_fuel : forall top b, budget <= b -> load imports b top <> LoadFuel.
+  Theorem c15_no_fuel : forall top b, universe_ok top -> budget <= b -> load imports b top <> LoadFuel.
   Proof.
-    intros top b Hb. destruct (load_cases top b Hb) as [(l & H & _)|[H _]]; rewrite H; discriminate.
+    intros top b HU Hb. destruct (load_cases top b HU Hb) as [(l & H & _)|[H _]]; rewrite H; discriminate.
   Qed.
 
-  Theorem c15_order : forall top b l, budget <= b -> load imports b top = LoadOk l -> valid_order top l.
+  Theorem c15_order : forall top b l, universe_ok top -> budget <= b -> load imports b top = LoadOk l -> valid_order top l.
   Proof.
-    intros top b l Hb Hl. destruct (load_cases top b Hb) as [(l' & H & HV)|[H _]].
+    intros top b l HU Hb Hl. destruct (load_cases top b HU Hb) as [(l' & H & HV)|[H _]].
     - rewrite H in Hl. inversion Hl; subst; auto.
     - rewrite H in Hl. discriminate.
   Qed.
 
-  Theorem c15_cycle : forall top b, budget <= b -> cyclic top -> load imports b top = LoadCycle.
+  Theorem c15_cycle : forall top b, universe_ok top -> budget <= b -> cyclic top -> load imports b top = LoadCycle.
   Proof.
-    intros top b Hb HC. destruct (load_cases top b Hb) as [(l' & H & HV)|[H _]]; auto.
+    intros top b HU Hb HC. destruct (load_cases top b HU Hb) as [(l' & H & HV)|[H _]]; auto.
     exfalso. eapply valid_order_not_cyclic; eauto.
   Qed.
 
-  Theorem c15_acyclic : forall top b, budget <= b -> ~ cyclic top -> exists l, load imports b top = LoadOk l.
+  Theorem c15_acyclic : forall top b, universe_ok top -> budget <= b -> ~ cyclic top -> exists l, load imports b top = LoadOk l.
   Proof.
-    intros top b Hb HC. destruct (load_cases top b Hb) as [(l' & H & HV)|[H HC']].
+    intros top b HU Hb HC. destruct (load_cases top b HU Hb) as [(l' & H & HV)|[H HC']].
     - eauto.
     - tauto.
   Qed.
